@@ -9,6 +9,8 @@ package main
 import (
 	"fmt"
 	"os"
+
+	"seehuhn.de/go/pdf/zzverif/engine/ev"
 )
 
 type check struct {
@@ -31,7 +33,10 @@ func main() {
 	}
 	switch os.Args[2] {
 	case "quick", "thorough":
-		os.Exit(c.run(os.Args[2]))
+		os.Exit(func() int {
+			defer ev.RecoverMain()
+			return c.run(os.Args[2])
+		}())
 	case "--replay":
 		if len(os.Args) < 4 || c.replay == nil {
 			fmt.Fprintln(os.Stderr, "replay: missing file or not supported")
